@@ -562,7 +562,9 @@ def dropUnchosen (getter : Option Str) (ms : List (Method × Option Str × Optio
     | some (m, sp, _) => if getter = some m.name then ms else ms.set i (m, sp, none)
     | none => ms) ms
 
-/-- `_pair_property_accessors` for one property -/
+/-- `_pair_property_accessors` for one property.  The two `if not x.introspectable: continue` tests
+    of the source never fire at this point of `transform` (nothing has cleared the flag of a property
+    or a method yet; IntrospectablePass runs later) and are not represented. -/
 def pairOne (p : PropInfo) (pe : Option Str × Option Str) (ms : List (Method × Option Str × Option Str)) :
     (Option Str × Option Str) × List (Method × Option Str × Option Str) :=
   let setter : Option Str := match pe.1 with
